@@ -39,8 +39,9 @@ Record graph := mkGraph {
 Record sem := mkSem {
   put_val : option IX -> V -> bool -> V -> option V;
      (* [put_val ix v acc old]: [old + v] / [old.index_put(ix, v, accumulate=acc)]; None = torch raised *)
-  mix : M -> V -> V -> V
-     (* [mix m old cur] = old * m + cur * ~m  (right-broadcast), state.py:568 *)
+  mix : M -> V -> V -> option V
+     (* [mix m old cur] = old * m + cur * ~m  (right-broadcast), state.py:563-570;
+        None = the shape assertion failed or torch could not broadcast *)
 }.
 
 Variable g : graph.
@@ -129,11 +130,26 @@ Fixpoint assoc (j : nat) (fk : forkd) : option (option V) :=
 Definition override (vs : vals) (fk : forkd) : vals :=
   fun j => match assoc j fk with Some o => o | None => vs j end.
 
-(** the loop of the partial revert (state.py:558-572): None if either side is unset. *)
+(** the loop of the partial revert (state.py:558-572): None if either side is unset; an exception in the
+    middle of the loop leaves the entries already processed modified (and [_last_fork] in place). *)
+Fixpoint revert_items (m : M) (vs : vals) (fk : forkd) : vals * bool :=
+  match fk with
+  | [] => (vs, true)
+  | (k, old) :: r =>
+      match old, vs k with
+      | Some o, Some c => match mix sm m o c with
+                          | Some x => revert_items m (upd vs k (Some x)) r
+                          | None => (vs, false)
+                          end
+      | _, _ => revert_items m (upd vs k None) r
+      end
+  end.
+
+(** the same, entry by entry (what the loop computes when nothing raises; used in the proofs) *)
 Definition revert_mask (m : M) (vs : vals) (fk : forkd) : vals :=
   fun j => match assoc j fk with
            | Some old => match old, vs j with
-                         | Some o, Some c => Some (mix sm m o c)
+                         | Some o, Some c => mix sm m o c
                          | _, _ => None
                          end
            | None => vs j
@@ -186,7 +202,10 @@ Definition revert_state (st : state) : state * out :=
 Definition revert_mask_state (st : state) (m : M) : state * out :=
   match fork st with
   | None => (st, Err InputError)
-  | Some fk => (mkState (revert_mask m (values st) fk) None (mode st), Done)
+  | Some fk =>
+      let '(vs', ok) := revert_items m (values st) fk in
+      if ok then (mkState vs' None (mode st), Done)
+      else (mkState vs' (fork st) (mode st), Err Crash)
   end.
 
 (** [State.clone] (state.py:187-215). *)
@@ -330,13 +349,15 @@ Definition Good (st : state) : Prop := Inv (values st) /\ Bounded (values st) /\
 
 (** * Discipline of a history.
     (a) [mask_ok]: the documented precondition of a per-individual revert, in its weakest form: every
-        node of the forked sub-graph that is cached on both sides carries the individual axis.
+        node of the forked sub-graph that is cached on both sides carries the individual axis and has
+        shapes "consistent with the subset" (the mix does not raise).
     (b) [unforked_ok], demanded only when [chk = true] (needed for the code as it is, [fx = false]): no
         assignment is made with auto-fork switched off while an earlier fork is still pending — finding F1. *)
-Definition mask_ok (st : state) : Prop :=
+Definition mask_ok (m : M) (st : state) : Prop :=
   match fork st with
   | None => True
-  | Some fk => forall c o, In (c, Some o) fk -> values st c <> None -> ind_axis g c = true
+  | Some fk => forall c o cur, In (c, Some o) fk -> values st c = Some cur ->
+                 ind_axis g c = true /\ mix sm m o cur <> None
   end.
 
 Definition unforked_ok (chk : bool) (st : state) : Prop :=
@@ -344,7 +365,7 @@ Definition unforked_ok (chk : bool) (st : state) : Prop :=
 
 Definition op_ok (chk : bool) (s : store) (o : op) : Prop :=
   match o with
-  | RevertMask k _ => match nth_error s k with Some st => mask_ok st | None => True end
+  | RevertMask k m => match nth_error s k with Some st => mask_ok m st | None => True end
   | Set_ k i _ | Put k i _ _ _ =>
       match nth_error s k with
       | Some st => i < gn g -> settable g i = true -> unforked_ok chk st
@@ -360,22 +381,23 @@ Fixpoint Disciplined (chk : bool) (s : store) (ops : list op) : Prop :=
   end.
 
 (** node functions of per-individual nodes commute with the row-wise selection [mix]:
-    [sel] marks the parents whose value was selected row by row, the others are the same on both sides. *)
-Fixpoint mix_args (m : M) (sel : nat -> bool) (ps : list nat) (olds curs : list V) : list V :=
-  match ps, olds, curs with
-  | p :: ps', o :: os, c :: cs =>
-      (if sel p then mix sm m o c else c) :: mix_args m sel ps' os cs
-  | _, _, _ => []
-  end.
+    [sel] marks the parents whose value was selected row by row ([news] holds the selected value), the other
+    parents have the same value on both sides. *)
+Inductive mixed_args (m : M) (sel : nat -> bool) : list nat -> list V -> list V -> list V -> Prop :=
+| MixNil : mixed_args m sel [] [] [] []
+| MixSel p ps o os c cs x xs : sel p = true -> mix sm m o c = Some x ->
+    mixed_args m sel ps os cs xs -> mixed_args m sel (p :: ps) (o :: os) (c :: cs) (x :: xs)
+| MixSame p ps os c cs xs : sel p = false ->
+    mixed_args m sel ps os cs xs -> mixed_args m sel (p :: ps) (c :: os) (c :: cs) (c :: xs).
 
 Definition F_mix : Prop :=
-  forall k m sel olds curs,
+  forall k m sel olds curs news x,
     k < gn g -> linked g k = true -> ind_axis g k = true ->
-    length olds = length (parents g k) -> length curs = length (parents g k) ->
+    mixed_args m sel (parents g k) olds curs news ->
     (exists p, In p (parents g k) /\ sel p = true) ->
     (forall p, In p (parents g k) -> sel p = true -> ind_axis g p = true) ->
-    (forall j p, nth_error (parents g k) j = Some p -> sel p = false -> nth_error olds j = nth_error curs j) ->
-    F g k (mix_args m sel (parents g k) olds curs) = mix sm m (F g k olds) (F g k curs).
+    mix sm m (F g k olds) (F g k curs) = Some x ->
+    F g k news = x.
 
 End Model.
 
